@@ -1056,6 +1056,18 @@ class FnTr:
             if v.ty not in INT:
                 raise Unsupported(f".{name}() on a value of type {v.ty}")
             return Val(f"{v.atom()} {op} {b.atom()}", v.ty)
+        if name in ("saturating_add", "saturating_sub") and len(args) == 1:
+            n0 = len(self.lines)
+            b = self.expr(args[0], v.ty)
+            v = self.pin(v, n0)
+            if v.ty is None:
+                v = self.fix(v, b.ty)
+            if v.ty not in INT or v.ty.startswith("i") or v.ty in WRAP:
+                raise Unsupported(f".{name}() on a value of type {v.ty}")
+            w = INT[v.ty]
+            if name == "saturating_add":
+                return Val(f"(if {v.atom()}.toNat + {b.atom()}.toNat < 2 ^ {w} then {v.atom()} + {b.atom()} else {lit_lean((1 << w) - 1, v.ty)})", v.ty)
+            return Val(f"(if {b.atom()}.toNat ≤ {v.atom()}.toNat then {v.atom()} - {b.atom()} else {lit_lean(0, v.ty)})", v.ty)
         if name in ("rotate_left", "rotate_right"):
             if v.ty not in INT:
                 raise Unsupported(f".{name}() on a value of type {v.ty}")
